@@ -88,9 +88,10 @@ PROPS = {
         "level_text": "Unbounded proof on the real functions: `impl Display for Summary` writes exactly render(view): one 'VAR=value' line per "
                       "value, variables in the fixed pkg_summary order - a function of the current values only, which is history "
                       "independence, because every setter/pusher is proved to produce view == old view updated at its own key; "
-                      "`impl Display for SummaryVariable` is the 23-name table and lemma_name_roundtrip proves parse(print(v)) == v with no "
-                      "'=' or line break in a name. The two round-trip compositions parse_entry(render(m)) == m and render(parse_entry(t)) == t "
-                      "are NOT yet lemmas: they are checked by the bounded search of the replay crate (labelled bounded).",
+                      "`impl Display for SummaryVariable` is the 23-name table and lemma_name_roundtrip proves parse(print(v)) == v with no '=' or line break in a name. "
+                      "The round trip is a THEOREM over those two contracts (lib/summary_roundtrip.rs): for every canonical value assignment m (all required variables, values of the right "
+                      "kind, no CR/LF inside values, non-empty line lists) parse_entry(render(m)) == Ok(m) (theorem_parse_render, by induction over the variables in pkg_summary order: "
+                      "lines_spec of a newline-terminated block, one step per printed line, present_vars proved duplicate-free and complete), hence render(parse_entry(t)) == t for canonical text t.",
         "level_note": VERUS_TRUST + "Formatter output modelled by an uninterpreted fout(); shims: Formatter::write_str, Display for i64 (text "
                       "assumed to re-parse to the same value), and shim_sorted_entries: copying the HashMap into a BTreeMap<&K,&V> and iterating it "
                       "yields every pair once in the derived (declaration) order of the key enum; writeln!(f, \"{}={}\", k, v) replaced by a helper "
